@@ -864,6 +864,9 @@ func parseRaceLog(text string) []raceReport {
 
 // shortFunc: github.com/nyaruka/goflow/excellent/types.(*XObject).ensureInitialized -> types.(*XObject).ensureInitialized
 func shortFunc(fn string) string {
+	if i := strings.Index(fn, "["); i >= 0 { // generic instantiation: slices.SortFunc[go.shape...]
+		fn = fn[:i]
+	}
 	if i := strings.LastIndex(fn, "/"); i >= 0 {
 		fn = fn[i+1:]
 	}
